@@ -149,24 +149,56 @@ def record(histories, nproc=16):
 
 # ---------------------------------------------------------------------------
 
+def spec_hash():
+    h = hashlib.sha1()
+    for fn in sorted(os.listdir(tlc.SPEC)):
+        if fn.endswith(".tla"):
+            h.update(open(os.path.join(tlc.SPEC, fn), "rb").read())
+    return h.hexdigest()[:12]
+
+
+def gen_universe(docs_expr, range_expr="WholeRange", timeout=900):
+    """Evaluates a universe expression of the Props_* modules ONCE (TLC on spec/GenUni.tla) and caches the
+    JSON under work/unicache (keyed by the hash of the specification).  Returns (path, universe dict)."""
+    cdir = os.path.join(tlc.WORK, "unicache")
+    os.makedirs(cdir, exist_ok=True)
+    path = os.path.join(cdir, f"{spec_hash()}_{docs_expr}_{range_expr}.json")
+    if os.path.exists(path):
+        return path, json.load(open(path))
+    wd = tlc.workdir("genuni")
+    try:
+        cfg = tlc.cfg_text(init="Init", next_="Next", constants={"UDocs": "<- " + docs_expr, "URange": "<- " + range_expr})
+        r = tlc.run("GenUni", cfg, wd, workers=1, timeout=timeout)
+        uni = None
+        for v in tlc.json_prints(r["out"]):
+            if "universe" in v:
+                uni = {"docs": v["universe"], "range": v["range"]}
+        if uni is None:
+            raise MachineryError("GenUni did not print the universe " + docs_expr + "\n" + r["out"][-2000:])
+        tmp = path + ".tmp%d" % os.getpid()
+        json.dump(uni, open(tmp, "w"))
+        os.replace(tmp, path)
+        return path, uni
+    finally:
+        tlc.cleanup(wd)
+
+
 def exhaustive(prop, docs_name, smin, smax, invariants, wd, switches=(), mutation=None, safes="{TRUE}",
-               emit=True, timeout=1500, module="MC_Build", coverage=False):
-    consts = {"Docs": "<- " + docs_name, "SafeFlags": safes, "MinStages": str(smin), "MaxStages": str(smax)}
+               emit=True, timeout=1500, module="MC_Build", coverage=False, doc_range="WholeRange"):
+    upath, uni = gen_universe(docs_name, doc_range)
+    consts = {"SafeFlags": safes, "MinStages": str(smin), "MaxStages": str(smax)}
     if mutation:
         consts["Mutation"] = json.dumps(mutation)
     cfg = tlc.cfg_text(init="Init", next_="Next", invariants=list(invariants) + (["Emit"] if emit else []),
                        constants=consts, switches=switches)
-    r = tlc.run(module, cfg, wd, workers=16, timeout=timeout, coverage=coverage)
+    r = tlc.run(module, cfg, wd, workers=16, timeout=timeout, coverage=coverage, env={"UNIVERSE_FILE": upath})
     out = {"states": r["distinct"], "transitions": r["generated"], "violated": r["violated"], "wall": r["wall"],
-           "universe": None, "behaviours": [], "raw": r}
-    if emit and not r["violated"]:
-        for v in tlc.json_prints(r["out"]):
-            if "universe" in v:
-                out["universe"] = v["universe"]
-            elif "h" in v:
-                out["behaviours"].append(v)
-        if out["universe"] is None:
-            raise MachineryError("TLC did not print the universe")
+           "universe": uni["docs"], "behaviours": [], "raw": r, "cex": None}
+    for v in tlc.json_prints(r["out"]):
+        if "h" in v and emit and not r["violated"]:
+            out["behaviours"].append(v)
+        elif "cex" in v:
+            out["cex"] = v
     return out
 
 
@@ -178,7 +210,7 @@ def _validate_chunk(args):
         for t in chunk:
             f.write(json.dumps(t) + "\n")
     cfg = tlc.cfg_text(init="TInit", next_="TNext", invariants=["Report"], switches=switches,
-                       constants={"Docs": "<- NoDocs", "SafeFlags": "{TRUE}", "MinStages": "1", "MaxStages": "99",
+                       constants={"SafeFlags": "{TRUE}", "MinStages": "1", "MaxStages": "99",
                                   "Prop": json.dumps(prop)})
     r = tlc.run("AyBuildTrace", cfg, wd, env={"TRACE_FILE": path}, workers=workers, timeout=timeout, heap="3g")
     if r["violated"]:
